@@ -1,9 +1,17 @@
 /-
   Code-span rule (`generics/inline/code_pair.rs`): theorems other properties import.
 
-  C01: `codepair_no_panic`, `runSeq_no_panic`, `codepair_old_panics`, `codepair_progress`
-  C16: `codepair_silent_real`, `cache_sound`, `cache_transparent`, inside-failed guarantees,
-       negation witnesses for the earlier code.
+  C01: `codepair_no_panic`, `runSeq_no_panic` (every source, EVERY cache value, every valid call /
+       call sequence), `codepair_progress`, `codepair_old_panics` (pinned code), `multibyte_marker_panics`.
+  C16: `codepair_silent_real` (unconditional, every variant), `CacheInv` + `cacheInv_run` /
+       `cacheInv_runSeq` (invariant preserved by every call, no discipline), `cache_sound`,
+       `cache_transparent`, `runSeq_transparent` (the closer table never changes an answer; only
+       hypothesis: no `pos_max` cuts a marker run — `cut_posmax_needs_hypothesis` shows it is needed),
+       `inside_hit`, `InsideInv` + `insideInv_run` (what `inside_failed` guarantees),
+       negation witnesses for the earlier code: `old_lookahead_poisons_cache` (A),
+       `old_table_not_monotone` (B), `old_guard_reads_tree` (C).
+  Building blocks reused by `Props/C11.lean`: `Frame`, `scan_hit`, `scan_nomarker`, `runs_induction`,
+       `scan_total`, `scan_some`, `scan_none`, `run_path`, `nodeOf`, `unpad`, `IsRun`.
   All statements are for every source string, every cache value and every call, no size bounds.
 -/
 import MdIt.Model.CodePair
@@ -1336,5 +1344,352 @@ theorem insideInv_run (v : Variant) (m : Char) (hm1 : m.utf8Size = 1) (src : Lis
         · exact Or.inr ⟨rfl, hq.1, opener_chars hm1 hsrc hx pos (Nat.le_refl _) (by omega)⟩
       · exact Or.inl hq
 
+
+
+/-! ## call sequences: the closer table is transparent -/
+
+/-- answer and `inside_failed` after the call -/
+def proj (x : Option Outcome × Cache) : Option Outcome × List Nat := (x.1, x.2.insideFailed)
+
+theorem scan_proj_indep (v : Variant) (m : Char) (hm1 : m.utf8Size = 1) (src : List Char)
+    (pos p posMax n : Nat) (silent : Bool) (X0 Z : List Char) :
+    ∀ (M X1 : List Char) (matchEnd : Nat) (c d : Cache),
+      Frame src pos p posMax matchEnd X0 X1 M Z → c.insideFailed = d.insideFailed →
+      (scan v m src pos posMax n p silent matchEnd c).map proj =
+        (scan v m src pos posMax n p silent matchEnd d).map proj := by
+  intro M
+  induction M using runs_induction (m := m) with
+  | nomark M hM =>
+    intro X1 matchEnd c d f hcd
+    have hX : byteLen (X0 ++ X1) = matchEnd := by rw [byteLen_append, f.hp, f.hme]
+    rw [scan_nomarker v m pos n p silent c f.hsrc hX f.hpm hM,
+      scan_nomarker v m pos n p silent d f.hsrc hX f.hpm hM]
+    show Except.ok _ = Except.ok _
+    simp only [proj, insideFailed_done]
+    unfold markInside; split <;> simp [hcd]
+  | hit A k T hA hT ih =>
+    intro X1 matchEnd c d f hcd
+    obtain ⟨h1, h2, h3⟩ := f.hit_args hm1
+    rw [scan_hit v m hm1 pos n p silent c h1 h2 h3 hA hT, scan_hit v m hm1 pos n p silent d h1 h2 h3 hA hT]
+    split
+    · split
+      · rfl
+      · split
+        · show Except.ok _ = Except.ok _
+          simp [proj, hcd]
+        · rw [f.mkNode n]
+          show Except.ok _ = Except.ok _
+          simp [proj, hcd]
+    · obtain ⟨mx, hmx, _⟩ := record_spec v.monotone c.max (k + 1) (matchEnd + byteLen A)
+      obtain ⟨mx', hmx', _⟩ := record_spec v.monotone d.max (k + 1) (matchEnd + byteLen A)
+      rw [hmx, hmx']
+      exact ih _ _ _ _ (f.next hm1) hcd
+
+/-- one step of the simulation: the real cache `c` (satisfying the invariant) against ANY cache
+    `d` with the same `inside_failed` whose table is switched off -/
+theorem run_sim (v : Variant) (hr : v.ranged = true) (hck : v.checked = true) (m : Char)
+    (hm1 : m.utf8Size = 1) (src : List Char) (pos posMax : Nat) (prev silent : Bool) (c d : Cache)
+    (hinv : CacheInv m src c) (hd : d.scanned = false) (hcd : c.insideFailed = d.insideFailed)
+    (hcut : posMax = c.scannedTo ∨ NoCut m src posMax) :
+    (run v m src pos posMax prev silent c).map proj =
+      (run v m src pos posMax prev silent d).map proj := by
+  cases hu : slice src pos posMax with
+  | none => simp [run, hu]
+  | some u =>
+    cases u with
+    | nil => simp [run, hu]
+    | cons ch rest =>
+      by_cases hch : ch = m
+      · subst hch
+        obtain ⟨x, T, Z, _, hT, _, _, f⟩ := run_frame hm1 hu
+        have hindep := scan_proj_indep v ch hm1 src pos _ posMax (1 + runLen ch rest) silent
+          _ Z T [] _ c d f hcd
+        rw [run_marker v ch prev silent c hu, run_marker v ch prev silent d hu]
+        have hnc : consultable v pos posMax d = false := by
+          simp [consultable, hd]
+        rw [hnc, ← hcd]
+        simp only [Bool.false_eq_true, if_false]
+        split
+        · show Except.ok _ = Except.ok _
+          simp [proj, hcd]
+        · split
+          · show Except.ok _ = Except.ok _
+            simp [proj, hcd]
+          · split
+            · rename_i hcons
+              simp only [lookup, hck, if_true]
+              split
+              · rename_i hx
+                obtain ⟨c1, hc1⟩ := cache_sound v hr ch hm1 src pos posMax c rest hinv hu hcons hx hcut
+                  silent d
+                obtain ⟨mx, hc1', _, _⟩ := scan_none v ch hm1 src pos _ posMax _ silent _ Z T [] _
+                  d c1 f hT hc1
+                rw [hc1]
+                show Except.ok _ = Except.ok _
+                simp only [proj, hc1', insideFailed_done]
+                unfold markInside; split <;> simp [hcd]
+              · exact hindep
+            · exact hindep
+      · rw [run_other v m prev silent c hu hch, run_other v m prev silent d hu hch]
+        show Except.ok _ = Except.ok _
+        simp [proj, hcd]
+
+/-- the reference semantics: the same calls, the closer table switched off before every call
+    (`inside_failed` is kept — it is part of the rule's meaning, not a cache) -/
+def runSeqNoTable (v : Variant) (m : Char) (src : List Char) :
+    List Call → Cache → Except Panic (List (Option Outcome) × Cache)
+  | [], c => .ok ([], c)
+  | k :: ks, c =>
+    match runCall v m src k { c with scanned := false } with
+    | .error e => .error e
+    | .ok (r, c') =>
+      match runSeqNoTable v m src ks c' with
+      | .error e => .error e
+      | .ok (rs, c'') => .ok (r :: rs, c'')
+
+/-- **Cache transparency (sequences).** For ANY interleaving of calls — any positions, silent or
+    real, any mixture of `pos_max` values, in any order — against one cache, started from any
+    cache satisfying the invariant (e.g. the empty one): every call answers exactly what the rule
+    without closer table answers (verdict, extent and node). The only hypothesis: no `pos_max`
+    cuts a marker run in two. -/
+theorem runSeq_transparent (v : Variant) (hr : v.ranged = true) (hmo : v.monotone = true)
+    (hck : v.checked = true) (m : Char) (hm1 : m.utf8Size = 1) (src : List Char)
+    (calls : List Call) (hcut : ∀ k ∈ calls, NoCut m src k.posMax) (c d : Cache)
+    (hinv : CacheInv m src c) (hcd : c.insideFailed = d.insideFailed) :
+    (runSeq v m src calls c).map Prod.fst = (runSeqNoTable v m src calls d).map Prod.fst := by
+  induction calls generalizing c d with
+  | nil => rfl
+  | cons k ks ih =>
+    have hstep := run_sim v hr hck m hm1 src k.pos k.posMax k.prevIsMarker k.silent c
+      { d with scanned := false } hinv rfl hcd (Or.inr (hcut k (by simp)))
+    unfold runSeq runSeqNoTable runCall
+    cases h1 : run v m src k.pos k.posMax k.prevIsMarker k.silent c with
+    | error e =>
+      cases h2 : run v m src k.pos k.posMax k.prevIsMarker k.silent { d with scanned := false } with
+      | error e' => rw [h1, h2] at hstep; cases hstep; rfl
+      | ok x => rw [h1, h2] at hstep; cases hstep
+    | ok x =>
+      cases h2 : run v m src k.pos k.posMax k.prevIsMarker k.silent { d with scanned := false } with
+      | error e' => rw [h1, h2] at hstep; cases hstep
+      | ok y =>
+        rw [h1, h2] at hstep
+        obtain ⟨r, c'⟩ := x
+        obtain ⟨r', d'⟩ := y
+        have hp : proj (r, c') = proj (r', d') := by injection hstep
+        simp only [proj, Prod.mk.injEq] at hp
+        obtain ⟨hrr, hcd'⟩ := hp
+        subst hrr
+        have hinv' := cacheInv_run v hr hmo m hm1 src k.pos k.posMax k.prevIsMarker k.silent c r c' hinv h1
+        have := ih (fun k' hk' => hcut k' (by simp [hk'])) c' d' hinv' hcd'
+        simp only
+        cases h3 : runSeq v m src ks c' with
+        | error e =>
+          cases h4 : runSeqNoTable v m src ks d' with
+          | error e' => rw [h3, h4] at this; cases this; rfl
+          | ok z => rw [h3, h4] at this; cases this
+        | ok z =>
+          cases h4 : runSeqNoTable v m src ks d' with
+          | error e' => rw [h3, h4] at this; cases this
+          | ok z' =>
+            rw [h3, h4] at this
+            have hz : z.1 = z'.1 := by injection this
+            show Except.ok _ = Except.ok _
+            simp [hz]
+
+
+
+/-! ## witnesses: the earlier code, and the one hypothesis that is needed -/
+
+/-- the verdicts (`None` / `Some(len)`) of a sequence; `none` if some call panicked -/
+def verdicts (r : Except Panic (List (Option Outcome) × Cache)) : Option (List (Option Nat)) :=
+  match r with
+  | .ok x => some (x.1.map (fun o => o.map (·.len)))
+  | .error _ => none
+
+def panicOf {α : Type} (r : Except Panic α) : Option Panic :=
+  match r with
+  | .ok _ => none
+  | .error e => some e
+
+def finalCache (r : Except Panic (List (Option Outcome) × Cache)) : Option Cache :=
+  match r with
+  | .ok x => some x.2
+  | .error _ => none
+
+/-- `` [` `` as the parser drives the rule on it: the link rule's label look-ahead calls the rule
+    silently at the backtick (no closer: `scanned := true`, table still empty), then the inline
+    loop calls it for real at the same place and the old lookup `max[1]` indexes an empty `Vec`. -/
+theorem codepair_old_panics :
+    panicOf (runSeq Variant.pinned '`' ['[', '`']
+      [⟨1, 2, false, true⟩, ⟨1, 2, false, false⟩] Cache.empty) = some .index := by decide +kernel
+
+/-- the same sequence on the current code -/
+example : verdicts (runSeq Variant.current '`' ['[', '`']
+    [⟨1, 2, false, true⟩, ⟨1, 2, false, false⟩] Cache.empty) = some [none, none] := by decide +kernel
+
+/-- (A) `` [`a` ` `` before the `scanned_from/scanned_to` repair: look-ahead at 1 says `Some(3)`,
+    look-ahead at 5 finds nothing and marks the paragraph scanned with an empty table, and the
+    real call at 1 is then answered `None` from the table. -/
+theorem old_lookahead_poisons_cache :
+    verdicts (runSeq ⟨true, false, false, false⟩ '`' ['[', '`', 'a', '`', ' ', '`']
+      [⟨1, 6, false, true⟩, ⟨5, 6, false, true⟩, ⟨1, 6, false, false⟩] Cache.empty)
+      = some [some 3, none, none] := by decide +kernel
+
+example : verdicts (runSeq Variant.current '`' ['[', '`', 'a', '`', ' ', '`']
+    [⟨1, 6, false, true⟩, ⟨5, 6, false, true⟩, ⟨1, 6, false, false⟩] Cache.empty)
+    = some [some 3, none, some 3] := by decide +kernel
+
+/-- (B) ```` ``` `a``b` ``c`` ```` with the non-monotone table update, plain left-to-right real
+    calls (the calls at 1 and 2 are stopped by the old trailing-text guard): the scan from the
+    opener at 4 overwrites the entry for length 2 (14, written by the complete scan from 0) with
+    6, and the 2-tick opener at 11 is answered `None` although its closer is at 14. -/
+theorem old_table_not_monotone :
+    verdicts (runSeq ⟨true, false, false, false⟩ '`'
+      ['`', '`', '`', ' ', '`', 'a', '`', '`', 'b', '`', ' ', '`', '`', 'c', '`', '`']
+      [⟨0, 16, false, false⟩, ⟨1, 16, true, false⟩, ⟨2, 16, true, false⟩, ⟨4, 16, false, false⟩,
+       ⟨11, 16, false, false⟩] Cache.empty)
+      = some [none, none, none, some 6, none] := by decide +kernel
+
+example : verdicts (runSeq Variant.current '`'
+    ['`', '`', '`', ' ', '`', 'a', '`', '`', 'b', '`', ' ', '`', '`', 'c', '`', '`']
+    [⟨0, 16, false, false⟩, ⟨1, 16, true, false⟩, ⟨2, 16, true, false⟩, ⟨4, 16, false, false⟩,
+     ⟨11, 16, false, false⟩] Cache.empty)
+    = some [none, none, none, some 6, some 5] := by decide +kernel
+
+/-- (C) ``[``a]`](x)`` with the trailing-text guard: the label look-ahead (tree untouched, so
+    `prev = false`) fails at 1, then claims a span of extent 4 at 2; the real call at 2 (nested
+    label tokenizer, `pos_max = 6`, the tree now ends in a backtick) answers `None`. -/
+theorem old_guard_reads_tree :
+    verdicts (runSeq ⟨true, true, true, false⟩ '`'
+      ['[', '`', '`', 'a', ']', '`', ']', '(', 'x', ')']
+      [⟨1, 10, false, true⟩, ⟨2, 10, false, true⟩, ⟨2, 6, true, false⟩] Cache.empty)
+      = some [none, some 4, none] := by decide +kernel
+
+example : verdicts (runSeq Variant.current '`'
+    ['[', '`', '`', 'a', ']', '`', ']', '(', 'x', ')']
+    [⟨1, 10, false, true⟩, ⟨2, 10, false, true⟩, ⟨2, 6, true, false⟩] Cache.empty)
+    = some [none, none, none] := by decide +kernel
+
+/-- The hypothesis of `cache_sound` / `runSeq_transparent` cannot be dropped: with a `pos_max`
+    that cuts a marker run (here 5, inside the run 3..6 of ``` ``a``` ```), the current code answers
+    `None` from the table although the rule without table finds the (truncated) closer. -/
+theorem cut_posmax_needs_hypothesis :
+    verdicts (runSeq Variant.current '`' ['`', '`', 'a', '`', '`', '`']
+      [⟨0, 6, false, true⟩, ⟨0, 5, false, true⟩] Cache.empty) = some [none, none] ∧
+    verdicts (runSeqNoTable Variant.current '`' ['`', '`', 'a', '`', '`', '`']
+      [⟨0, 6, false, true⟩, ⟨0, 5, false, true⟩] Cache.empty) = some [none, some 5] ∧
+    ¬ NoCut '`' ['`', '`', 'a', '`', '`', '`'] 5 := by
+  refine ⟨by decide +kernel, by decide +kernel, ?_⟩
+  intro h; apply h
+  refine ⟨by decide, by decide +kernel, by decide +kernel⟩
+
+/-- small `pos_max` first, large afterwards (the order a nested label tokenizer followed by the
+    rest of the line produces): the range test keeps the table of the small scan from answering
+    for the large one -/
+example : verdicts (runSeq Variant.current '`' ['`', 'a', ' ', '`', 'b', '`']
+    [⟨0, 2, false, true⟩, ⟨3, 6, false, false⟩, ⟨0, 6, false, false⟩] Cache.empty)
+    = some [none, some 3, some 4] := by decide +kernel
+
+/-- before the range repair the same sequence loses the span at 0 -/
+example : verdicts (runSeq ⟨true, false, true, true⟩ '`' ['`', 'a', ' ', '`', 'b', '`']
+    [⟨0, 2, false, true⟩, ⟨3, 6, false, false⟩, ⟨0, 6, false, false⟩] Cache.empty)
+    = some [none, none, none] := by decide +kernel
+
+theorem cacheInv_runSeq (v : Variant) (hr : v.ranged = true) (hmo : v.monotone = true) (m : Char)
+    (hm1 : m.utf8Size = 1) (src : List Char) (calls : List Call) (c : Cache)
+    (rs : List (Option Outcome)) (c' : Cache) (hinv : CacheInv m src c)
+    (h : runSeq v m src calls c = .ok (rs, c')) : CacheInv m src c' := by
+  induction calls generalizing c rs with
+  | nil => simp [runSeq] at h; rw [← h.2]; exact hinv
+  | cons k ks ih =>
+    unfold runSeq runCall at h
+    cases h1 : run v m src k.pos k.posMax k.prevIsMarker k.silent c with
+    | error e => simp [h1] at h
+    | ok x =>
+      obtain ⟨r, c1⟩ := x
+      simp only [h1] at h
+      cases h2 : runSeq v m src ks c1 with
+      | error e => simp [h2] at h
+      | ok y =>
+        obtain ⟨rs', c2⟩ := y
+        simp only [h2, Except.ok.injEq, Prod.mk.injEq] at h
+        obtain ⟨_, hc⟩ := h
+        subst hc
+        exact ih c1 rs' (cacheInv_run v hr hmo m hm1 src _ _ _ _ c r c1 hinv h1) h2
+
+/-- non-vacuity of `cache_sound`: a reachable cache (after a silent sweep over
+    ```` ``` `a` ```` ) that is `scanned`, satisfies the invariant by `cacheInv_runSeq`, and answers
+    the real call at 0 from the table -/
+example :
+    ∃ c, finalCache (runSeq Variant.current '`' ['`', '`', '`', ' ', '`', 'a', '`']
+        [⟨0, 7, false, true⟩, ⟨4, 7, false, true⟩] Cache.empty) = some c ∧
+      c.scanned = true ∧ consultable Variant.current 0 7 c = true ∧ c.max.getD 3 0 ≤ 0 ∧
+      CacheInv '`' ['`', '`', '`', ' ', '`', 'a', '`'] c := by
+  have hf : finalCache (runSeq Variant.current '`' ['`', '`', '`', ' ', '`', 'a', '`']
+      [⟨0, 7, false, true⟩, ⟨4, 7, false, true⟩] Cache.empty) = some ⟨true, 0, 7, [0, 6], [1, 2]⟩ := by
+    decide +kernel
+  refine ⟨⟨true, 0, 7, [0, 6], [1, 2]⟩, hf, rfl, by decide, by decide, ?_⟩
+  cases h : runSeq Variant.current '`' ['`', '`', '`', ' ', '`', 'a', '`']
+      [⟨0, 7, false, true⟩, ⟨4, 7, false, true⟩] Cache.empty with
+  | error e => rw [h] at hf; cases hf
+  | ok x =>
+    obtain ⟨rs, c⟩ := x
+    rw [h] at hf
+    simp only [finalCache, Option.some.injEq] at hf
+    subst hf
+    exact cacheInv_runSeq _ rfl rfl '`' (by decide) _ _ _ _ _ (CacheInv.empty _ _) h
+
+
+/-! ## non-vacuity of the general theorems -/
+
+/-- the marker of the shipped instance is one byte wide -/
+theorem backtick_size : ('`' : Char).utf8Size = 1 := by decide
+
+def verdictOf (r : Except Panic (Option Outcome × Cache)) : Option (Option Nat) :=
+  match r with
+  | .ok x => some (x.1.map (·.len))
+  | .error _ => none
+
+/-- `codepair_no_panic` on a multi-byte source (`é` 2 bytes, `€` 3 bytes) and an arbitrary,
+    unreachable cache value -/
+example : ∃ r, run Variant.current '`' ['é', '`', '€', '`'] 2 7 false false ⟨true, 9, 3, [5], [7]⟩ = .ok r :=
+  codepair_no_panic _ rfl _ backtick_size _ _ _ _ _ _ (by decide +kernel) (by decide +kernel) (by decide)
+
+/-- its hypotheses are needed: `pos` inside `é`, `pos = pos_max`, `pos_max` beyond the end -/
+example : panicOf (run Variant.current '`' ['é', '`', '€', '`'] 1 7 false false Cache.empty) = some .slice ∧
+    panicOf (run Variant.current '`' ['é', '`', '€', '`'] 2 2 false false Cache.empty) = some .unwrap ∧
+    panicOf (run Variant.current '`' ['é', '`', '€', '`'] 2 8 false false Cache.empty) = some .slice := by
+  decide +kernel
+
+/-- `codepair_progress`: the call it speaks about exists (`Some(5)`: 1 + 3 + 1 bytes) -/
+example : verdictOf (run Variant.current '`' ['é', '`', '€', '`'] 2 7 false true Cache.empty) = some (some 5) := by
+  decide +kernel
+
+example (o : Outcome) (c' : Cache)
+    (h : run Variant.current '`' ['é', '`', '€', '`'] 2 7 false true Cache.empty = .ok (some o, c')) :
+    2 ≤ o.len ∧ 2 + o.len ≤ 7 ∧ isBoundary ['é', '`', '€', '`'] (2 + o.len) = true :=
+  codepair_progress _ _ backtick_size _ _ _ _ _ _ _ _ h
+
+/-- `runSeq_transparent` on a sequence mixing three `pos_max` values, none cutting a run -/
+example : (runSeq Variant.current '`' ['`', 'a', ']', '`', 'b', '`']
+      [⟨0, 6, false, true⟩, ⟨0, 2, false, false⟩, ⟨3, 6, false, false⟩, ⟨0, 3, false, true⟩] Cache.empty).map Prod.fst =
+    (runSeqNoTable Variant.current '`' ['`', 'a', ']', '`', 'b', '`']
+      [⟨0, 6, false, true⟩, ⟨0, 2, false, false⟩, ⟨3, 6, false, false⟩, ⟨0, 3, false, true⟩] Cache.empty).map Prod.fst := by
+  apply runSeq_transparent _ rfl rfl rfl _ backtick_size _ _ _ _ _ (CacheInv.empty _ _) rfl
+  intro k hk
+  simp only [List.mem_cons, List.not_mem_nil, or_false] at hk
+  rcases hk with rfl | rfl | rfl | rfl <;> (intro h; revert h; decide +kernel)
+
+
+
+/-- The hypothesis `m.utf8Size = 1` of all theorems above is necessary, and the Rust agrees: the
+    generic `add_with::<MARKER, _>` advances by ONE byte per marker character, so with a two-byte
+    marker (`§`) the very first slice after the opener is off a char boundary. Confirmed on the
+    real crate: `add_with::<'§', false>` panics on `"§a§"`, `"§"`, `"a§"`
+    ("start byte index 1 is not a char boundary"). -/
+theorem multibyte_marker_panics :
+    panicOf (run Variant.current '§' ['§', 'a', '§'] 0 5 false false Cache.empty) = some .slice ∧
+    panicOf (run Variant.current '§' ['§'] 0 2 false true Cache.empty) = some .slice := by
+  decide +kernel
 
 end MdIt.CodePair
